@@ -25,7 +25,8 @@ ASSUMPTIONS = ['EEPROM layout: "0xBC", version, channel, speed, pitch trim, roll
                '1-wire layout: 0xEB, pins u32, vid, pid, crc32&0xFF | 0x00, len, TLV..., crc32&0xFF',
                'reads that would run past the 112-byte 1-wire memory fail on the device and are not generated']
 REQUIRED = ['mon.i2c_roundtrip', 'mon.i2c_corruptions', 'mon.ow_roundtrip', 'mon.ow_corruptions', 'mon.lh_mem', 'mon.lh_yaml',
-            'mon.param_yaml', 'mon.poly4d', 'mon.led_timings', 'mon.deck_info', 'mon.loco', 'mon.loco2', 'mon.ow_all_lengths']
+            'mon.param_yaml', 'mon.poly4d', 'mon.led_timings', 'mon.deck_info', 'mon.loco', 'mon.loco2', 'mon.ow_all_lengths',
+            'mon.compressed_trajectory_uploads']
 DESC_TIMEOUT = 900
 
 
@@ -430,6 +431,57 @@ def run_traj(desc, ctx):
             struct.pack('<7h', *[int(math.degrees(0.1) * 10)] * 7)
         if h2.writes[0][1] != want or n2 != len(want):
             ctx.violate('traj:compressed-image-differs-from-layout', {'written': h2.writes[0][1].hex(), 'want': want.hex()})
+        # random compressed trajectories, uploaded more than once from the same objects (second trajectory slot,
+        # re-upload after a reconnect, second Crazyflie): every image must have the firmware layout
+        traj = [CompressedStart(rnd.uniform(-30, 30), rnd.uniform(-30, 30), rnd.uniform(0, 30), rnd.uniform(-3.1, 3.1))]
+        spec_t = []
+        for _ in range(rnd.randint(1, 6)):
+            els = [[rnd.uniform(-30, 30) if ax < 3 else rnd.uniform(-3.1, 3.1) for _ in range(rnd.choice((0, 1, 3, 7)))] for ax in range(4)]
+            dur = rnd.choice((0.001, 1.0, 65.535, rnd.uniform(0.01, 60)))
+            traj.append(CompressedSegment(dur, els[0], els[1], els[2], els[3]))
+            spec_t.append((dur, els))
+
+        def layout_ok(img):
+            try:
+                vals = struct.unpack('<hhhh', img[:8])
+                st0 = traj[0]
+                if any(abs(v - w * 1000) >= 1 for v, w in zip(vals[:3], (st0.x, st0.y, st0.z))) or abs(vals[3] - math.degrees(st0.yaw) * 10) >= 1:
+                    return 'start'
+                pos = 8
+                for (dur, els) in spec_t:
+                    tb, ms = struct.unpack('<BH', img[pos:pos + 3])
+                    pos += 3
+                    if abs(ms - dur * 1000) >= 1:
+                        return 'duration'
+                    for ax in range(4):
+                        cnt = {0: 0, 1: 1, 2: 3, 3: 7}[(tb >> (2 * ax)) & 3]
+                        if cnt != len(els[ax]):
+                            return 'type-bits'
+                        got = struct.unpack('<%dh' % cnt, img[pos:pos + 2 * cnt])
+                        pos += 2 * cnt
+                        for g, w in zip(got, els[ax]):
+                            if abs(g - (w * 1000 if ax < 3 else math.degrees(w) * 10)) >= 1:
+                                return 'value'
+                return None if pos == len(img) else 'length'
+            except struct.error:
+                return 'truncated'
+        h4 = MemHandler(size=8192)
+        mem4 = TrajectoryMemory(id=3, type=0x12, size=8192, mem_handler=h4)
+        mem4.trajectory = traj
+        used = [mem4.write_data(lambda m, a: None), mem4.write_data(lambda m, a: None, start_addr=0x800)]
+        h5 = MemHandler(size=8192)
+        mem5 = TrajectoryMemory(id=3, type=0x12, size=8192, mem_handler=h5)
+        mem5.trajectory = traj
+        used.append(mem5.write_data(lambda m, a: None))
+        ctx.evals()
+        ctx.count('mon.compressed_trajectory_uploads', 3)
+        ctx.nontrivial(('ctraj', bytes(h4.writes[0][1])))
+        for k, (w, n_) in enumerate(zip(h4.writes + h5.writes, used)):
+            why = layout_ok(bytes(w[1]))
+            if why or n_ != len(w[1]) or w[0] != (0, 0x800, 0)[k]:
+                ctx.violate('traj:compressed-image-differs-from-layout' + (':repeated-upload' if k else ''),
+                            {'upload': k, 'what': why, 'bytes_used_returned': n_, 'image_length': len(w[1]), 'segments': len(spec_t)})
+                break
         # LED timings
         h3 = MemHandler(size=2048)
         lt = LEDTimingsDriverMemory(id=4, type=0x17, size=2048, mem_handler=h3)
